@@ -9,6 +9,7 @@ FFSM2_CONSTEXPR(14)
 T&
 StaticArrayT<T, NC_>::operator[] (const N index) noexcept	{
 	FFSM2_ASSERT(0 <= index && index < CAPACITY);
+	FFSM2_VERIF_INDEX(index, CAPACITY);
 
 	return _items[static_cast<Index>(index)];
 }
@@ -21,6 +22,7 @@ FFSM2_CONSTEXPR(14)
 const T&
 StaticArrayT<T, NC_>::operator[] (const N index) const noexcept	{
 	FFSM2_ASSERT(0 <= index && index < CAPACITY);
+	FFSM2_VERIF_INDEX(index, CAPACITY);
 
 	return _items[static_cast<Index>(index)];
 }
@@ -84,6 +86,7 @@ FFSM2_CONSTEXPR(14)
 typename DynamicArrayT<T, NC_>::Item&
 DynamicArrayT<T, NC_>::operator[] (const N index) noexcept {
 	FFSM2_ASSERT(0 <= index && index < _count);
+	FFSM2_VERIF_INDEX(index, _count);
 
 	return _items[static_cast<Index>(index)];
 }
@@ -96,6 +99,7 @@ FFSM2_CONSTEXPR(14)
 const typename DynamicArrayT<T, NC_>::Item&
 DynamicArrayT<T, NC_>::operator[] (const N index) const noexcept {
 	FFSM2_ASSERT(0 <= index && index < _count);
+	FFSM2_VERIF_INDEX(index, _count);
 
 	return _items[static_cast<Index>(index)];
 }
